@@ -414,7 +414,7 @@ func init() {
 	replayFuncs["lex"] = func(raw json.RawMessage) (bool, string) {
 		var c c11Case
 		json.Unmarshal(raw, &c)
-		got, err := lexer.Tokenize(c.Source)
+		got, err := safeTokenize(c.Source)
 		if c.WantErr {
 			if err == nil {
 				return false, "Tokenize accepted a malformed input: " + c.Note
@@ -450,7 +450,7 @@ func TestC11(t *testing.T) {
 				r.HarnessError("lexref rejects fixed input %q: %v", f.src, lerr)
 				continue
 			}
-			got, err := lexer.Tokenize(f.src)
+			got, err := safeTokenize(f.src)
 			r.Eval()
 			r.NonTrivial(f.src, nil)
 			if msg, sig := c11Compare(f.src, want, got, err); msg != "" {
@@ -506,7 +506,7 @@ func TestC11(t *testing.T) {
 		if nontrivial {
 			r.NonTrivial(src, map[string]any{"source": src, "tokens": len(want)})
 		}
-		got, err := lexer.Tokenize(src)
+		got, err := safeTokenize(src)
 		if msg, sig := c11Compare(src, want, got, err); msg != "" {
 			r.FailCase(t, sig, msg+"\nsource: "+fmt.Sprintf("%q", src), c11Case{Kind: "lex", Property: "C11", Source: src, Expect: want})
 		}
@@ -540,7 +540,7 @@ func c11Soup(t *rapid.T, r *rep.R) {
 	if lerr != nil && strings.Contains(lerr.Error(), "unterminated block comment") {
 		t.Skip("unterminated block comment: unspecified")
 	}
-	got, err := lexer.Tokenize(src)
+	got, err := safeTokenize(src)
 	r.Eval()
 	r.Class("soup")
 	r.NonTrivial(src, nil)
@@ -587,7 +587,7 @@ func c11Negative(t *rapid.T, r *rep.R) {
 	r.Eval()
 	r.Class("negative-" + kind)
 	r.NonTrivial(src, nil)
-	_, err := lexer.Tokenize(src)
+	_, err := safeTokenize(src)
 	if err == nil {
 		r.FailCase(t, rep.Sig{"field": "no-error", "neg": kind}, fmt.Sprintf("Tokenize accepted malformed input %q (%s)", src, kind),
 			c11Case{Kind: "lex", Property: "C11", Source: src, WantErr: true, Note: kind})
